@@ -39,6 +39,9 @@ pub enum COp {
     ForceCloseX,
     /// protocol Y on L returns from `run()`
     ExitY,
+    /// protocol X on L returns from `run()` (which of the two exits matters: protocols are notified in hash-map
+    /// order)
+    ExitX,
     /// the application dials R again (probe: must be attempted once R counts as disconnected)
     DialAgain,
     /// let `n` ticks of virtual time pass
@@ -219,6 +222,9 @@ impl Scenario for ConnScenario {
             COp::ExitY => {
                 let _ = st.y.cmd.send(MonitorCmd::Exit);
             }
+            COp::ExitX => {
+                let _ = st.x.cmd.send(MonitorCmd::Exit);
+            }
             COp::DialAgain => {
                 let _ = w.nodes[st.l].cmd.send(NodeCmd::Dial(st.peer_r));
             }
@@ -285,7 +291,10 @@ impl Scenario for ConnScenario {
         let x = st.x.log.lock().clone();
         let y = st.y.log.lock().clone();
         let app: Vec<NodeLog> = w.nodes[st.l].log.lock().clone();
-        let y_exited = y.iter().any(|e| matches!(e, Seen::Exited));
+        let y_only_exited = y.iter().any(|e| matches!(e, Seen::Exited));
+        let x_exited = x.iter().any(|e| matches!(e, Seen::Exited));
+        // "some local protocol has shut down"
+        let y_exited = y_only_exited || x_exited;
 
         // ---------------- C08: per-protocol, per-peer event grammar ----------------
         if self.is("c08") {
@@ -350,7 +359,7 @@ impl Scenario for ConnScenario {
                         _ => {}
                     }
                 }
-                if name == "Y" && y_exited {
+                if (name == "Y" && y_only_exited) || (name == "X" && x_exited) {
                     continue;
                 }
                 for (id, (answers, closed_after)) in asked {
@@ -376,7 +385,7 @@ impl Scenario for ConnScenario {
             };
             let app_est = app.iter().filter(|e| matches!(e, NodeLog::Event(s) if s.starts_with("ConnectionEstablished"))).count();
             let app_closed = app.iter().filter(|e| matches!(e, NodeLog::Event(s) if s.starts_with("ConnectionClosed"))).count();
-            for (name, log, running) in [("X", &x, true), ("Y", &y, !y_exited)] {
+            for (name, log, running) in [("X", &x, !x_exited), ("Y", &y, !y_only_exited)] {
                 let est = log.iter().filter(|e| matches!(e, Seen::Established { .. })).count();
                 let closed = log.iter().filter(|e| matches!(e, Seen::Closed { .. })).count();
                 if closed > est {
@@ -384,8 +393,11 @@ impl Scenario for ConnScenario {
                 }
                 if running && all_ended && est > closed {
                     let cause = if y_exited { "after-protocol-exit" } else { "all-protocols-running" };
+                    // was the connection the protocol is stuck with ever announced to the application, or was it
+                    // rolled back while it was being accepted?
+                    let kind = if est > app_est { "connection-rolled-back-during-accept" } else { "connection-was-established" };
                     v.push(Viol::new(
-                        format!("c07/protocol-not-told-closed/{cause}"),
+                        format!("c07/protocol-not-told-closed/{cause}/{kind}"),
                         format!("protocol {name} saw the connection established but never closed although every connection has ended; log {:?}; app {:?}", shorts(log), app.iter().map(short_app).collect::<Vec<_>>()),
                     ));
                 }
@@ -422,13 +434,14 @@ impl Scenario for ConnScenario {
                 }
             }
             // a new connection after Y exited must still reach X (and the application): probe
-            if y_exited && w.nodes[st.r].alive && !self.real_tcp {
+            if y_exited && !(x_exited && y_only_exited) && w.nodes[st.r].alive && !self.real_tcp {
+                let (x, survivor) = if x_exited { (y.clone(), st.y.clone()) } else { (x.clone(), st.x.clone()) };
                 let x_est = x.iter().filter(|e| matches!(e, Seen::Established { .. })).count();
                 let x_closed = x.iter().filter(|e| matches!(e, Seen::Closed { .. })).count();
                 if x_est == x_closed && all_ended {
                     let _ = w.nodes[st.l].cmd.send(NodeCmd::Dial(st.peer_r));
                     w.run_to_quiescence(50_000);
-                    let x2 = st.x.log.lock().clone();
+                    let x2 = survivor.log.lock().clone();
                     let est2 = x2.iter().filter(|e| matches!(e, Seen::Established { .. })).count();
                     if est2 == x_est {
                         v.push(Viol::new(
@@ -593,6 +606,9 @@ pub fn scenarios(filter: &str, thorough: bool) -> Vec<ConnScenario> {
                 vec![Connect, ExitY, RemoteOpenX, CutLink(0)],
                 vec![ExitY, Connect, OpenX, CutLink(0)],
                 vec![Connect, CutLink(0), ExitY, Connect, OpenX],
+                vec![Connect, ExitX, CutLink(0)],
+                vec![Connect, ExitX, RemoteOpenX, CutLink(0)],
+                vec![Connect, ExitX, KillRemote],
             ] {
                 v.push(sc("c07", ka, false, 8, prog));
             }
